@@ -63,12 +63,15 @@ struct Stream {
     seed: u64,
     counter: u64,
     policy: Policy,
+    /// if set, the policy applies only to iterations at this call site (file name suffix, line);
+    /// all others are delivered in natural order
+    only_site: Option<(String, u32)>,
     probes: Vec<Probe>,
     containers: u64,
 }
 
 thread_local! {
-    static STREAM: RefCell<Stream> = RefCell::new(Stream { seed: 0, counter: 0, policy: Policy::Natural, probes: Vec::new(), containers: 0 });
+    static STREAM: RefCell<Stream> = RefCell::new(Stream { seed: 0, counter: 0, policy: Policy::Natural, only_site: None, probes: Vec::new(), containers: 0 });
 }
 
 /// Start a fresh seed stream and order policy on the calling thread; clears recorded probes.
@@ -78,9 +81,16 @@ pub fn set_stream(seed: u64, policy: Policy) {
         s.seed = seed;
         s.counter = 0;
         s.policy = policy;
+        s.only_site = None;
         s.probes.clear();
         s.containers = 0;
     })
+}
+
+/// Restrict the order policy of the calling thread to one iteration site (until the next
+/// [`set_stream`]): lets the harness find out *which* iteration an output depends on.
+pub fn set_site_filter(file_suffix: &str, line: u32) {
+    STREAM.with(|s| s.borrow_mut().only_site = Some((file_suffix.to_string(), line)))
 }
 
 /// Probes recorded on the calling thread since the last [`set_stream`], and the number of
@@ -162,7 +172,11 @@ fn seq_sig(hs: &[u64]) -> u64 {
 fn deliver<T>(mut items: Vec<T>, loc: &'static Location<'static>, op: &'static str, key_hash: impl Fn(&T) -> u64) -> Vec<T> {
     STREAM.with(|s| {
         let mut s = s.borrow_mut();
-        match s.policy {
+        let applies = match &s.only_site {
+            Some((f, l)) => loc.file().ends_with(f.as_str()) && loc.line() == *l,
+            None => true,
+        };
+        match if applies { s.policy } else { Policy::Natural } {
             Policy::Natural => {},
             Policy::Reversed => items.reverse(),
             Policy::Rotated => {
